@@ -714,7 +714,7 @@ def oracle(case, io):
         # no model for this program: the two drivers must agree with each other, and the sharing check is reported here
         a, b = io['drivers'].get('compiled', []), io['drivers'].get('api', [])
         for qi, (x, y) in enumerate(zip(a, b)):
-            if x['end'] != 'done' or y['end'] != 'done' or x.get('findall_inner') or y.get('findall_inner'):
+            if x['end'] != 'done' or y['end'] != 'done':
                 continue
             if x['count'] != y['count'] or x['answers'] != y['answers']:
                 return 'query %d: the compiled clause and the same goals driven through the API give different answers (%d / %d)' % (qi, x['count'], y['count'])
@@ -738,10 +738,6 @@ def compare(case, io, mo):
                 return 'model compiler stuck (harness problem)'
             manswers, mcount, merr = semcheck.canon_answers(m[0]), m[1], bool(m[2])
             ianswers = iq['answers']
-            if iq.get('findall_inner'):
-                # lib/semcheck.py watch_findall: the identity of variables collected from different answers of a findall
-                # goal is outside the model; everything else is compared
-                ianswers, manswers = semcheck.anon_vars(ianswers), semcheck.anon_vars(manswers)
             if merr:
                 k = min(len(manswers), len(ianswers))
                 if manswers[:k] != ianswers[:k]:
